@@ -98,3 +98,43 @@ Theorem C14_prose_hypotheses_hold :
    escape_html_text (mkHopts false false) ($"a > b ""c""") = $"a &gt; b ""c""").
 Proof. split; [exact prose_configs|exact prose_instance]. Qed.
 Print Assumptions C14_prose_hypotheses_hold.
+
+(* ... and for paragraphs in which DELIMITER CHARACTERS STAND WHERE THEY MEAN NOTHING (Proofs/InertProse.v): any number of
+   lines; the joined text has no backslash, backtick or &, no ] directly followed by ( - the document defines no link
+   references - and no run of * or _ that could close emphasis by the flanking rules (isolated runs, intraword underscores,
+   runs that can only open): however many runs, [ ![ and ] it holds, the delimiter scanner ends with no match (an invariant
+   of its loop), every regex-defined span token of the configuration needs a character the text lacks (so `a < b` with
+   no > is inert), and the paragraph is its text, escaped, between <p> and </p>. *)
+From Mistletoe Require Import Proofs.InertProse.
+Theorem C14_inert_delimiters_pass_through : forall cfg o l ls,
+  inert_paragraph l ls -> lacks_nl_config cfg (join [10] (l :: ls)) = true ->
+  render_html o (fst (fst (parse_lines cfg (nl_lines (l :: ls))))) =
+  $"<p>" ++ join [10] (map (escape_html_text o) (l :: ls)) ++ $"</p>" ++ [10].
+Proof. exact inert_paragraph_renders. Qed.
+Print Assumptions C14_inert_delimiters_pass_through.
+
+(* the same with every hypothesis a computable check *)
+Theorem C14_inert_delimiters_decidable : forall cfg o l ls,
+  inert_paragraph_b l ls = true -> lacks_nl_config cfg (join [10] (l :: ls)) = true ->
+  render_html o (fst (fst (parse_lines cfg (nl_lines (l :: ls))))) =
+  $"<p>" ++ join [10] (map (escape_html_text o) (l :: ls)) ++ $"</p>" ++ [10].
+Proof. exact inert_paragraph_b_renders. Qed.
+Print Assumptions C14_inert_delimiters_decidable.
+
+(* the scanner alone: no match, whatever the number of runs and brackets *)
+Theorem C14_scanner_finds_nothing : forall s,
+  mem 92 s = false -> mem 96 s = false ->
+  (forall i, 0 <= i < slen s -> char_at s i = 93 -> follows s i 40 = false)%Z ->
+  (forall a b, run_at s a b -> is_closer a b s = false) ->
+  find_core_tokens s [] = ([], []).
+Proof. exact core_inert. Qed.
+Print Assumptions C14_scanner_finds_nothing.
+
+Theorem C14_inert_hypotheses_hold :
+  let l := $"so 2 * 3 = 6 and snake_case stays," in
+  let ls := [$"a [b] c, ![d], e] and [f *"; $"then x < y _ z and **open"; $"f(x)[i] = a_b * c_d"] in
+  inert_paragraph_b l ls = true /\
+  forallb (fun c => lacks_nl_config c (join [10] (l :: ls))) [cfg_html; cfg_html_nohtml; cfg_markdown; cfg_latex; cfg_mathjax; cfg_default] = true /\
+  inert_paragraph_b ($"a *b") [$"c* d"] = false /\ inert_paragraph_b ($"a [b](c)") [$"d"] = false.
+Proof. exact inert_paragraph_instance. Qed.
+Print Assumptions C14_inert_hypotheses_hold.
